@@ -434,7 +434,7 @@ def extract_schema(index: Index) -> Schema:
     return sch
 
 
-def _table_from_call(v: ast.Call, sch: Schema) -> TableRef:
+def _table_from_call(v: ast.Call, sch: Schema, resolve=None) -> TableRef:
     tn = v.args[0].value  # type: ignore[attr-defined]
     cols, temp = [], False
     for a in v.args[1:]:
@@ -457,8 +457,9 @@ def _table_from_call(v: ast.Call, sch: Schema) -> TableRef:
                     sch.fks.setdefault(tn, {})[cn] = x.args[0].value
     for k in v.keywords:
         if k.arg == "prefixes":
+            kv = resolve(k.value) if resolve is not None else k.value
             try:
-                vals = [e.value for e in k.value.elts]  # type: ignore
+                vals = [e.value for e in kv.elts]  # type: ignore
             except Exception:
                 vals = []
             temp = any(str(x).upper() in ("TEMPORARY", "TEMP") for x in vals)
@@ -815,7 +816,16 @@ class SqlInterp:
             return BOOL_FUNCS[last](tuple(args))
         if d in ("sa.Table", "Table") and e.args and isinstance(
                 e.args[0], ast.Constant):
-            return _table_from_call(e, self.schema)
+            from .dataflow import Defs
+            d_ = Defs(self.fi.node)
+
+            def _res(x: ast.AST) -> ast.AST:
+                if isinstance(x, ast.Name):
+                    bs = [b for b in d_.of(x.id) if b.value is not None]
+                    if len(bs) == 1:
+                        return bs[0].value
+                return x
+            return _table_from_call(e, self.schema, _res)
         if last in ("CreateTable", "DropTable") and args:
             return DDL("create" if last == "CreateTable" else "drop", args[0])
         if d.startswith(("sa.func.", "func.")):
